@@ -330,6 +330,89 @@ func MountAfterLookup(out *RunResult) {
 	}
 }
 
+// QueuedWorkAcrossRestart: when the service is shut down a callback of group B is still waiting in the work queue
+// behind a running callback of group A (one worker). It is dropped with the queue. After the restart a callback
+// submitted to group B is accepted and runs - nothing of the previous life stands in its way.
+func QueuedWorkAcrossRestart(out *RunResult) {
+	viol := func(kind, text string) {
+		out.Violations = append(out.Violations, Violation{Property: "C03", Kind: kind, Text: text, Sig: map[string]string{"kind": kind, "engine": "sched"}})
+	}
+	for variant := 0; variant < 3; variant++ {
+		s := res.NewService("test")
+		s.SetLogger(nil)
+		s.SetWorkerCount(1)
+		if variant == 2 {
+			s.SetInChannelSize(4)
+		}
+		s.Handle("r.$id", res.GetResource(func(r res.GetRequest) { r.NotFound() }))
+		start := func() (chan error, bool) {
+			served := make(chan struct{})
+			s.SetOnServe(func(*res.Service) { close(served) })
+			done := make(chan error, 1)
+			go func() { done <- s.Serve(rconn.New(nil)) }()
+			select {
+			case <-served:
+				return done, true
+			case <-time.After(3 * time.Second):
+				return done, false
+			}
+		}
+		done, ok := start()
+		if !ok {
+			return
+		}
+		inside, release := make(chan struct{}), make(chan struct{})
+		s.With("test.r.a", func(res.Resource) { close(inside); <-release })
+		<-inside
+		ranEarly := make(chan struct{}, 1)
+		if variant == 1 {
+			s.WithGroup("gb", func(*res.Service) { ranEarly <- struct{}{} })
+		} else {
+			s.With("test.r.b", func(res.Resource) { ranEarly <- struct{}{} })
+		}
+		sd := make(chan error, 1)
+		go func() { sd <- s.Shutdown() }()
+		time.Sleep(2 * time.Millisecond)
+		close(release)
+		select {
+		case <-sd:
+		case <-time.After(3 * time.Second):
+			viol(hangKind(goroutineDump()), "Shutdown did not return within 3s (a callback queued behind a running one)")
+			return
+		}
+		select {
+		case <-done:
+		case <-time.After(3 * time.Second):
+		}
+		done, ok = start()
+		if !ok {
+			viol("serve-not-started", "the service did not start again")
+			return
+		}
+		ran := make(chan struct{})
+		var err error
+		if variant == 1 {
+			s.WithGroup("gb", func(*res.Service) { close(ran) })
+		} else {
+			err = s.With("test.r.b", func(res.Resource) { close(ran) })
+		}
+		if err != nil {
+			viol("with-error", fmt.Sprintf("With after the restart: %v", err))
+		} else {
+			select {
+			case <-ran:
+			case <-time.After(2 * time.Second):
+				viol("restart-lost", "a callback submitted after the restart to a group that had a callback waiting in the queue when the service was shut down never ran")
+			}
+		}
+		s.Shutdown()
+		select {
+		case <-done:
+		case <-time.After(3 * time.Second):
+		}
+	}
+}
+
 // ConcurrentLookups: three goroutines call With at the same time, each for resources of its own (two groups and an
 // id no handler matches). With reports an error exactly for the unmatched id, and every callback runs in the group
 // its resource belongs to.
@@ -665,6 +748,7 @@ func TwoListenerLoop(seed int64, prog Program, n int) *RunResult {
 	NestedMountGroups(out)
 	KeptRequest(out)
 	ConcurrentLookups(out)
+	QueuedWorkAcrossRestart(out)
 	return out
 }
 
